@@ -5,5 +5,8 @@ import (
 	_ "verif/props/c01"
 	_ "verif/props/c02"
 	_ "verif/props/c11"
+	_ "verif/props/c12"
+	_ "verif/props/c13"
+	_ "verif/props/c14"
 	_ "verif/props/c19"
 )
